@@ -316,13 +316,13 @@ def monLoad (op : List String) (exts : List (List String)) (obs : Option String)
         let isPh := (p.d.placeholder.isSome && sameVal eff (.str [])) || (p.d.omitEmpty && isZero eff)
         let accBad : List Fail :=
           if p.validate && extBad exts eff == some true && !isPh then
-            [{ prop := "C29", sig := s!"C29:accepted-value-fails-its-validator:{path}",
+            [{ prop := "C29", sig := "C29:accepted-value-fails-its-validator",
                what := s!"{path}: validation passed, the value in use {valTok eff} does not pass the field's validator" }] else []
         let gt : List Fail :=
           match getter with
-          | some "other" => [{ prop := "C29", sig := s!"C29:getter-differs-from-field:{path}", what := s!"{path}: getter and struct field disagree" }]
+          | some "other" => [{ prop := "C29", sig := "C29:getter-differs-from-field", what := s!"{path}: getter and struct field disagree" }]
           | some "blank" => if extBad exts eff == some true then [] else
-              [{ prop := "C29", sig := s!"C29:getter-blank-for-valid-value:{path}", what := s!"{path}: getter returns \"\" for {valTok eff}" }]
+              [{ prop := "C29", sig := "C29:getter-blank-for-valid-value", what := s!"{path}: getter returns \"\" for {valTok eff}" }]
           | _ => []
         precedence ++ docd ++ accBad ++ gt
     | ["rej", echo] =>
